@@ -243,7 +243,7 @@ def scalar_model(law, opt, ck, u0, u1):
         s = sm if de * de <= 1e-10 else sm + (W(u1) - W(u0) - sm * de) / de
     else:
         pts = {"quad1": [(0.5, 1.0)], "quad2": [(0.0, 0.5), (1.0, 0.5)], "quad3": [(0.0, 1 / 6), (0.5, 2 / 3), (1.0, 1 / 6)],
-               "quad4": [(0.0, 1 / 18), (0.25, 4 / 9), (0.75, 4 / 9), (1.0, 1 / 18)]}[opt]
+               "quad4": [(0.0, 1 / 18), (0.25, 4 / 9), (0.75, 4 / 9), (1.0, 1 / 18)], "quadA": [(0.0, 1 / 6), (0.5, 2 / 3), (1.0, 1 / 6)]}[opt]
         s = sum(w * dWe(e0 + t * de) for t, w in pts)
     return A * (1 + gt) * s, 0.5 * W(u1), 0.5 * W(u0)
 
@@ -281,6 +281,8 @@ def step_job(job):
             K_e, R_e = Operators.NonLinear.SecondPiolaKirchhoffStressTensor(mat, st)
         elif opt == "gonzalez":
             K_e, R_e = Operators.NonLinear.GonzalezStressTensor(mat, sn, st, s1, True)
+        elif opt == "quadA":
+            K_e, R_e, _ = Operators.NonLinear.TimeQuadratureStressTensor(mat, sn, st, s1, ck, 1, tol=1e-11)
         else:
             K_e, R_e, _ = Operators.NonLinear.TimeQuadratureStressTensor(mat, sn, st, s1, ck, int(opt[-1]))
         asm = g.Get_assembly_e(dim)[0]
@@ -306,6 +308,8 @@ def step_job(job):
                 sim.Solver_Set_Hyperbolic_Algorithm(dt, algo=AlgoType.midpoint)
                 if opt == "gonzalez":
                     sim.Solver_Set_Stress(sim.StressType.gonzalez)
+                elif opt == "quadA":
+                    sim.Solver_Set_Stress(sim.StressType.quadrature, energyTol=1e-11)
                 elif opt != "pointwise":
                     sim.Solver_Set_Stress(sim.StressType.quadrature, nPoints=int(opt[-1]))
                 sim._Set_solutions(sim.problemType, u0 * phi, v0 * phi, np.zeros_like(phi))
